@@ -183,7 +183,13 @@ fn pick_keys(r: &mut Rng) -> Vec<u32> {
 fn build_pair(r: &mut Rng, out: &mut String, force_relation: bool) -> &'static str {
     writeln!(out, "new b0").unwrap();
     writeln!(out, "new b1").unwrap();
-    let mode = if force_relation { 40 + r.below(35) } else { r.below(100) };
+    let mode = if r.chance(1, 14) {
+        95 // complements
+    } else if force_relation {
+        40 + r.below(35)
+    } else {
+        r.below(100)
+    };
     match mode {
         // independent per-key recipes, keys shared / left-only / right-only
         0..=39 => {
@@ -342,6 +348,18 @@ fn build_pair(r: &mut Rng, out: &mut String, force_relation: bool) -> &'static s
                 writeln!(out, "insert b1 {}", bs + s).unwrap();
                 writeln!(out, "insert b1 {}", bs + s + stride * (n1 - 1)).unwrap();
             }
+            "b1"
+        }
+        // exact complements inside one chunk (cardinalities add up to 65536, or miss it by one): dense/dense,
+        // and (rarely in C02, because the operators materialise 65536 values) with small remainders
+        95..=96 => {
+            let k = *r.pick(&KEYS);
+            let bs = base(k);
+            let cut = *r.pick(&[4097u64, 5000, 30000, 32768, 60000, 61439]);
+            let gap = *r.pick(&[0u64, 0, 1]); // 1: one value belongs to neither side
+            let extra = *r.pick(&[0u64, 0, 1]); // 1: one value belongs to both sides
+            writeln!(out, "insert_range b0 in:{} ex:{}", bs, bs + cut).unwrap();
+            writeln!(out, "insert_range b1 in:{} ex:{}", bs + cut + gap - extra.min(cut + gap), bs + 65536).unwrap();
             "b1"
         }
         // one side empty (or both)
